@@ -16,7 +16,8 @@ LEVEL = "exploration"
 RULE = (
     "Hypothesis draws (model in JC69/HKY/GTR/GeneralJC69/general symmetric/general non-symmetric/LG/WAG/"
     "MG94; rates, kappa, alpha, beta log-uniform 1e-4..1e4; frequencies = normalised exponentials with a "
-    "drawn spread up to a ratio of 1e4; general models with 3-6 states and a random mapping onto 1..n rate "
+    "drawn spread up to a ratio of 1e4 and, in a quarter of the vectors, one or several entries of 1e-5..1e-10 "
+    "(every model class that takes frequencies; labelled 'skewed-frequencies'); general models with 3-6 states and a random mapping onto 1..n rate "
     "classes; MG94 with one of the 15 genetic codes; parameters unbatched, batched alike with sample shape "
     "[S] or [S,K], or rates batched with shared frequencies; branch lengths 0 or log-uniform 1e-8..100 in "
     "the shape the tree likelihood passes, sample shape + [B,K], and for unbatched models also scalar and "
@@ -35,6 +36,13 @@ ASSUMPTIONS = [
     "(40 digits) in the self-test and on a hashed sample of the generated cases (harness error if they differ by > 1e-12)",
     "tolerance on entries of P: 1e-10 absolute (DESIGN C04-B); 1e-9 for the non-symmetric model when p_t receives a "
     "single matrix (upstream torch.matrix_exp is only ~2e-10 accurate for one matrix; the likelihood always passes >= 2)",
+    "skewed frequencies (max/min > 2e4): reversible models keep 1e-10 (a Pade reference attains it); the non-symmetric model gets "
+    "max(1e-10, 20 eps t|Q|_inf), the first-order conditioning of expm for a non-normal generator (measured <= 3.2 eps t|Q| for "
+    "torch.matrix_exp and scipy alike); P(0)=I for the eigen route: max(1e-12, 10 eps cond(diag(sqrt(pi)))); differences between tolerance "
+    "and max(1e-7, 100 eps t|Q|) are re-judged against mpmath, so scipy's own rounding never decides",
+    "failures of the eigen route where frequencies are skewed and cond(diag(sqrt(pi)))*max(1,t|Q|_inf) >= 3e5 are tagged amp_band '>=3e5' "
+    "(known finding C04-eigen-skewed-frequencies-amplification), recorded once per state, and the search continues behind them; outside "
+    "that corner the measured error of the unchanged tree is <= 0.41 eps cond t|Q| <= 2.7e-11",
     "LG / WAG numbers cannot be re-derived offline: their q() is checked structurally (symmetric exchangeabilities, "
     "zero row sums, positive off-diagonals) and P against expm of the oracle-normalised q(); the frequencies are used as "
     "given (LG's sum to 1.000001 as in the published file)",
